@@ -303,6 +303,53 @@ fn sweep(info: &WsInfo, lsp: &mut Lsp, stride: usize, phase: usize, st: &mut Sta
     Ok(out)
 }
 
+/// A new declaration `let zzalias = q.name;` at the end of a module, naming a declaration of a module it imports
+/// under a qualifier of its own; preferably one that the module does not use yet. Returns the module, the program
+/// with the declaration and the module as printed then.
+fn alias_edit(c: &WtCase, phase: usize) -> Option<(usize, Program, PrintedModule)> {
+    let mut cands: Vec<(bool, usize, String, DeclId)> = Vec::new();
+    for (em, md) in c.prog.modules.iter().enumerate() {
+        for s in &md.stmts {
+            if let Stmt::Use { target, qual: Some(q), .. } = s {
+                let unique = md.stmts.iter().filter(|x| matches!(x, Stmt::Use { qual: Some(q2), .. } if q2 == q)).count() == 1;
+                if !unique {
+                    continue;
+                }
+                for (d, decl) in c.prog.decls.iter().enumerate() {
+                    if decl.module == *target && !decl.is_ref() && !decl.is_fun() {
+                        let used = c.printed[em].occs.iter().any(|o| o.role == Role::Use(Target::Decl(d)));
+                        cands.push((used, em, q.clone(), d));
+                    }
+                }
+            }
+        }
+    }
+    if cands.iter().any(|x| !x.0) {
+        cands.retain(|x| !x.0);
+    }
+    if cands.is_empty() {
+        return None;
+    }
+    let (_, em, q, d) = cands[(phase / 8) % cands.len()].clone();
+    let mut p2 = c.prog.clone();
+    let id = p2.decls.len();
+    p2.decls.push(Decl {
+        module: em,
+        name: "zzalias".into(),
+        params: vec![],
+        anns: vec![],
+        rhs: E::Var {
+            qual: Some(q),
+            name: p2.decls[d].name.clone(),
+            target: Target::Decl(d),
+        },
+        ty: p2.decls[d].ty.clone(),
+    });
+    p2.modules[em].stmts.push(Stmt::Let { id });
+    let pm = crate::gen::print::print_program(&p2).into_iter().nth(em)?;
+    Some((em, p2, pm))
+}
+
 pub fn write_workspace(dir: &Path, c: &WtCase) {
     write_sources(dir, &c.sources);
     std::fs::write(dir.join("oal.toml"), format!("[api]\nmain = \"{}\"\ntarget = \"out.yaml\"\n", c.sources.files[0].0)).unwrap();
@@ -334,41 +381,55 @@ pub fn run_case(c: &WtCase, stride: usize, phase: usize, st: &mut Stats) -> Vec<
         st.inc("sessions_after_drafts");
     }
     let mut r = sweep(&info, &mut lsp, stride, phase, st);
-    // half of the sessions go on: one module gets a comment line in front (an unsaved edit in an open document) and
-    // the workspace as it is then is swept again, more thinly: every position of that module is one line further
-    // down, in the answers about every module
+    // half of the sessions go on with an unsaved edit in an open document, after which the workspace as it is then is
+    // swept again, more thinly. The edit is a comment line in front of one module (every position of that module is
+    // one line further down, in the answers about every module) or a new declaration at the end of one module that
+    // names a declaration of an imported module (which gains a reference, in a document that may have had none).
     let shifted: Vec<PrintedModule>;
+    let prog2: Program;
     if matches!(&r, Ok(v) if v.is_empty()) && phase % 4 >= 2 && !c.printed[0].text.starts_with(OVERFLOWING_LITERAL) {
         const LINE: &str = "// edited\n";
-        let em = (phase / 4) % c.printed.len();
-        shifted = c
-            .printed
-            .iter()
-            .enumerate()
-            .map(|(m, pm)| {
-                let mut q = pm.clone();
-                if m == em {
-                    let sh = |r: &std::ops::Range<usize>| (r.start + LINE.len())..(r.end + LINE.len());
-                    q.text = format!("{LINE}{}", pm.text);
-                    for o in q.occs.iter_mut() {
-                        o.range = sh(&o.range);
-                        o.qual = o.qual.as_ref().map(sh);
-                    }
-                    for d in q.decl_ranges.iter_mut() {
-                        d.1 = sh(&d.1);
-                    }
-                    for r in q.stmts.iter_mut() {
-                        *r = sh(r);
-                    }
-                }
-                q
-            })
-            .collect();
+        let alias = if phase % 8 >= 6 { alias_edit(c, phase) } else { None };
+        let (em, changes): (usize, Vec<(Option<[[u32; 2]; 2]>, String)>) = match alias {
+            Some((em, p2, pm2)) => {
+                let text = pm2.text.clone();
+                shifted = c.printed.iter().enumerate().map(|(m, pm)| if m == em { pm2.clone() } else { pm.clone() }).collect();
+                prog2 = p2;
+                st.inc("sessions_swept_again_after_a_new_reference");
+                (em, vec![(None, text)])
+            }
+            None => {
+                let em = (phase / 4) % c.printed.len();
+                shifted = c
+                    .printed
+                    .iter()
+                    .enumerate()
+                    .map(|(m, pm)| {
+                        let mut q = pm.clone();
+                        if m == em {
+                            let sh = |r: &std::ops::Range<usize>| (r.start + LINE.len())..(r.end + LINE.len());
+                            q.text = format!("{LINE}{}", pm.text);
+                            for o in q.occs.iter_mut() {
+                                o.range = sh(&o.range);
+                                o.qual = o.qual.as_ref().map(sh);
+                            }
+                            for d in q.decl_ranges.iter_mut() {
+                                d.1 = sh(&d.1);
+                            }
+                            for r in q.stmts.iter_mut() {
+                                *r = sh(r);
+                            }
+                        }
+                        q
+                    })
+                    .collect();
+                prog2 = c.prog.clone();
+                (em, vec![(Some([[0, 0], [0, 0]]), LINE.to_owned())])
+            }
+        };
         let uri = file_uri(&dir.path.join(&c.printed[em].file));
-        let sent = lsp
-            .did_open(&uri, &c.printed[em].text)
-            .and_then(|_| lsp.did_change(&uri, 2, &[(Some([[0, 0], [0, 0]]), LINE.to_owned())]));
-        let info2 = WsInfo::new(&dir.path, &c.prog, &shifted);
+        let sent = lsp.did_open(&uri, &c.printed[em].text).and_then(|_| lsp.did_change(&uri, 2, &changes));
+        let info2 = WsInfo::new(&dir.path, &prog2, &shifted);
         r = match sent {
             Ok(()) => sweep(&info2, &mut lsp, stride * 2, phase, st).map(|mut v| {
                 for x in v.iter_mut() {
